@@ -11,7 +11,7 @@ run_slice() {
   while read s; do
     n=$((n+1))
     if [ $((n % 4)) -eq $i ]; then
-      c=${s%%-*}
+      c=$(echo ${s%%-*} | sed "s/[a-z]$//")
       LINES_MAX=2 ./tools/seedcheck.sh $s $c quick >> /tmp/seedmatrix.$i.out 2>&1
     fi
   done < /tmp/seedlist.txt
